@@ -19,7 +19,9 @@ import (
 	"verifharness/props/conc"
 )
 
-func init() { proc.Register("c06-worker", func(a []string) int { conc.Setup(17, 20); return par.Serve(a, history) }) }
+func init() {
+	proc.Register("c06-worker", func(a []string) int { conc.Setup(17, 20); return par.Serve(a, history) })
+}
 
 type HistRes struct {
 	Sig        string   `json:"sig"`
